@@ -580,14 +580,21 @@ KSI_IMPLEMENT_REF(KSI_Integer);
 
 char *KSI_Integer_toDateString(const KSI_Integer *o, char *buf, size_t buf_len) {
 	char *ret = NULL;
+	char tmp[64];
 	time_t pubTm;
 	struct tm tm;
 
+	if (o == NULL || buf == NULL || buf_len == 0) return NULL;
+
 	pubTm = (time_t)o->value;
 
-	gmtime_r(&pubTm, &tm);
+	if (gmtime_r(&pubTm, &tm) == NULL || strftime(tmp, sizeof(tmp), "%Y-%m-%d %H:%M:%S UTC", &tm) == 0) {
+		buf[0] = '\0';
+		return NULL;
+	}
 
-	strftime(buf, buf_len, "%Y-%m-%d %H:%M:%S UTC", &tm);
+	/* Truncates when the buffer is too short; the result is always terminated. */
+	KSI_snprintf(buf, buf_len, "%s", tmp);
 
 	ret = buf;
 
